@@ -98,6 +98,10 @@ fn do_wake(p: *const ()) {
         );
         return;
     }
+    ctx::with_ctx(|x| {
+        let t = x.cur;
+        x.task_wakes[t] += 1;
+    });
     let thread = with_driver(c.driver.get(), |d| {
         d.wakes.set(d.wakes.get() + 1);
         d.token.set(true);
@@ -236,6 +240,24 @@ pub fn block_on_sim<R>(mut fut: Pin<Box<dyn Future<Output = R> + Send>>, mut on_
                 }
                 harness_yield();
             }
+        }
+    }
+}
+
+/// Harness-side shared state: an uncontended lock by construction (one simulated thread runs at a time and the guard
+/// is never held across a scheduling point) -- a contended acquisition is a harness bug and panics instead of deadlocking.
+pub struct HLock<T>(std::sync::Mutex<T>);
+
+impl<T> HLock<T> {
+    pub fn new(v: T) -> Self {
+        HLock(std::sync::Mutex::new(v))
+    }
+    #[allow(clippy::result_unit_err)]
+    pub fn lock(&self) -> Result<std::sync::MutexGuard<'_, T>, ()> {
+        match self.0.try_lock() {
+            Ok(g) => Ok(g),
+            Err(std::sync::TryLockError::Poisoned(p)) => Ok(p.into_inner()),
+            Err(std::sync::TryLockError::WouldBlock) => panic!("harness: a harness lock was held across a scheduling point"),
         }
     }
 }
